@@ -179,9 +179,11 @@ def St.int (s : St) (v : Nat) : Option Int :=
   | some (.int i) => some i
   | _ => none
 
+def natOfInt (i : Int) : Option Nat := if i < 0 then none else some i.toNat
+
 def St.nat (s : St) (v : Nat) : Option Nat :=
   match s.int v with
-  | some i => if i < 0 then none else some i.toNat
+  | some i => natOfInt i
   | none => none
 
 def St.buf (s : St) (v : Nat) : Option Buf :=
